@@ -319,6 +319,101 @@ fn answer(a: &[&str]) -> String {
             if write_pdu(&mut b, &pdu).is_err() { return "BAD write_error".into(); }
             format!("HEX {}", b.iter().map(|x| format!("{:02x}", x)).collect::<String>())
         }
+        // c04_elem codec gggg eeee VR hdr_len variant vals... -> "N <bytes_written> <hex of the stream> <hex of the raw value>"
+        "c04_elem" => {
+            use dicom_core::header::{DataElementHeader, Length};
+            use dicom_core::VR;
+            use dicom_encoding::text::SpecificCharacterSet;
+            use dicom_parser::stateful::encode::StatefulEncoder;
+            use std::str::FromStr;
+            let big = a[1] == "ebe";
+            let g = u16::from_str_radix(a[2], 16).unwrap();
+            let e = u16::from_str_radix(a[3], 16).unwrap();
+            let vr = VR::from_str(a[4]).unwrap();
+            let hl: u32 = a[5].parse().unwrap();
+            let vals = &a[7..];
+            let mut raw: Vec<u8> = Vec::new();
+            macro_rules! nums { ($t:ty, $variant:ident) => {{
+                let xs: Vec<$t> = vals.iter().map(|x| x.parse::<u64>().unwrap() as $t).collect();
+                for x in &xs { if big { raw.extend_from_slice(&x.to_be_bytes()) } else { raw.extend_from_slice(&x.to_le_bytes()) } }
+                PrimitiveValue::$variant(xs.into_iter().collect())
+            }}}
+            let value = match a[6] {
+                "U8" => nums!(u8, U8), "U16" => nums!(u16, U16), "I16" => nums!(i16, I16), "U32" => nums!(u32, U32), "I32" => nums!(i32, I32),
+                "U64" => nums!(u64, U64), "I64" => nums!(i64, I64),
+                "Str" => { let s = String::from_utf8(unhex(vals[0])).unwrap(); raw.extend_from_slice(s.as_bytes()); PrimitiveValue::Str(s) }
+                "Strs" => {
+                    let ss: Vec<String> = vals.iter().map(|x| String::from_utf8(unhex(x)).unwrap()).collect();
+                    raw.extend_from_slice(ss.join("\\").as_bytes());
+                    PrimitiveValue::Strs(ss.into_iter().collect())
+                }
+                "Tags" => {
+                    let tg: u16 = vals[0].parse().unwrap(); let te: u16 = vals[1].parse().unwrap();
+                    for x in [tg, te] { if big { raw.extend_from_slice(&x.to_be_bytes()) } else { raw.extend_from_slice(&x.to_le_bytes()) } }
+                    PrimitiveValue::Tags([Tag(tg, te)].into_iter().collect())
+                }
+                _ => PrimitiveValue::Empty,
+            };
+            let de = DataElementHeader::new(Tag(g, e), vr, Length(hl));
+            let mut out: Vec<u8> = Vec::new();
+            macro_rules! go { ($enc:expr) => {{
+                let mut se = StatefulEncoder::new(&mut out, dicom_encoding::encode::EncoderFor::new($enc), SpecificCharacterSet::default());
+                if se.encode_primitive_element(&de, &value).is_err() { return "BAD encode_error".into(); }
+                se.bytes_written()
+            }}}
+            let bw = match a[1] {
+                "ele" => go!(dicom_encoding::encode::explicit_le::ExplicitVRLittleEndianEncoder::default()),
+                "ile" => go!(dicom_encoding::encode::implicit_le::ImplicitVRLittleEndianEncoder::default()),
+                _ => go!(dicom_encoding::encode::explicit_be::ExplicitVRBigEndianEncoder::default()),
+            };
+            format!("N {} {} {}", bw, if out.is_empty() { "-".to_string() } else { hex(&out) }, if raw.is_empty() { "-".to_string() } else { hex(&raw) })
+        }
+        // c04_tokens codec default|nochange token... -> "N - <hex of the stream>"
+        //   tokens: S:gggg,eeee,len  I:len  i  s  P  E:gggg,eeee,US,v,v..  E:gggg,eeee,VR,texthex  F:hex  O:n,n
+        "c04_tokens" => {
+            use dicom_core::header::{DataElementHeader, Length};
+            use dicom_core::VR;
+            use dicom_parser::dataset::write::{DataSetWriter, DataSetWriterOptions, ExplicitLengthSqItemStrategy};
+            use dicom_parser::dataset::DataToken;
+            use std::str::FromStr;
+            let mut toks: Vec<DataToken> = Vec::new();
+            for t in &a[3..] {
+                let (k, rest) = t.split_once(':').unwrap_or((t, ""));
+                let f: Vec<&str> = rest.split(',').collect();
+                match k {
+                    "S" => toks.push(DataToken::SequenceStart { tag: Tag(u16::from_str_radix(f[0], 16).unwrap(), u16::from_str_radix(f[1], 16).unwrap()), len: Length(f[2].parse().unwrap()) }),
+                    "I" => toks.push(DataToken::ItemStart { len: Length(f[0].parse().unwrap()) }),
+                    "i" => toks.push(DataToken::ItemEnd),
+                    "s" => toks.push(DataToken::SequenceEnd),
+                    "P" => toks.push(DataToken::PixelSequenceStart),
+                    "E" => {
+                        let tag = Tag(u16::from_str_radix(f[0], 16).unwrap(), u16::from_str_radix(f[1], 16).unwrap());
+                        let vr = VR::from_str(f[2]).unwrap();
+                        toks.push(DataToken::ElementHeader(DataElementHeader::new(tag, vr, Length(0x77))));
+                        if f[2] == "US" {
+                            toks.push(DataToken::PrimitiveValue(PrimitiveValue::U16(f[3..].iter().map(|x| x.parse::<u16>().unwrap()).collect())));
+                        } else {
+                            toks.push(DataToken::PrimitiveValue(PrimitiveValue::Str(String::from_utf8(unhex(f[3])).unwrap())));
+                        }
+                    }
+                    "F" => toks.push(DataToken::ItemValue(unhex(f[0]))),
+                    "O" => toks.push(DataToken::OffsetTable(if f[0] == "-" { vec![] } else { f.iter().map(|x| x.parse::<u32>().unwrap()).collect() })),
+                    _ => return "BAD token".into(),
+                }
+            }
+            let opts = DataSetWriterOptions::default().explicit_length_sq_item_strategy(if a[2] == "nochange" { ExplicitLengthSqItemStrategy::NoChange } else { ExplicitLengthSqItemStrategy::SetUndefined });
+            let mut out: Vec<u8> = Vec::new();
+            macro_rules! go { ($enc:expr) => {{
+                let mut dw = DataSetWriter::new_with_options(&mut out, dicom_encoding::encode::EncoderFor::new($enc), opts);
+                for t in toks { if dw.write(t).is_err() { return "BAD write_error".into(); } }
+            }}}
+            match a[1] {
+                "ele" => go!(dicom_encoding::encode::explicit_le::ExplicitVRLittleEndianEncoder::default()),
+                "ile" => go!(dicom_encoding::encode::implicit_le::ImplicitVRLittleEndianEncoder::default()),
+                _ => go!(dicom_encoding::encode::explicit_be::ExplicitVRBigEndianEncoder::default()),
+            };
+            format!("N - {}", if out.is_empty() { "-".to_string() } else { hex(&out) })
+        }
         // ts_dump -> one line per registered transfer syntax
         "ts_dump" => {
             use dicom_encoding::transfer_syntax::TransferSyntaxIndex;
